@@ -1089,7 +1089,7 @@ func checkDistinctCounting(cx *CheckCtx, fn *ssa.Function) {
 											oh := outer[len(outer)-1]
 											inOuter := loopBlocks(oh)
 											for _, latch := range oh.Preds {
-												if inOuter[latch] && !viaEdge(ifi.Block(), 0, latch) {
+												if inOuter[latch] && !guardedBy(ifi.Block(), 0, latch) {
 													okCmp = false
 												}
 											}
